@@ -13,6 +13,7 @@ import random
 import re
 
 from vf.oracles import bpv7
+from vf.oracles import cbor_walk as cw
 
 PROPERTY_ID = 'C10'
 RULE = ('histories of 1-40 received bundles over routing tables of 1-6 overlapping, fully anchored patterns with all three '
@@ -98,6 +99,11 @@ def _gen_history(rng, length):
         item = dict(src=src, time=rng.choice([1, 5, 1000, 2 ** 33]), seq=rng.randint(0, 3), frag=frag,
                     dest=rng.choice(DESTS), flags=flags, crc=rng.choice([0, 1, 2]), tag='new', plen=rng.choice([4, 9, 30]),
                     report_to=rng.choice(['dtn:none', 'dtn://rep/r']))
+        if frag is None and rng.random() < 0.12:
+            # flagged as administrative record, with a payload this implementation cannot take apart as a record (a reason code
+            # assigned later, a record type that is no integer, too few items, no CBOR at all): routed like any other bundle
+            item['admin'] = rng.choice([bpv7.encode_status_report([(True, None), (False, None), (False, None), (False, None)], 17, 'dtn://subj/x', 5, 6),
+                                        cw.enc(['x', 1]), cw.enc([]), cw.enc([1]), b'\xff\x00', cw.enc([1, [[[True]], 200]]), cw.enc([7, {1: 2}])])
         if item['crc'] and rng.random() < 0.2:
             # a copy damaged in transit (CRC failure) arrives first: it is dropped and leaves no trace, the intact copy is processed
             hist.append(dict(item, tag='damaged', corrupt=True))
@@ -107,6 +113,9 @@ def _gen_history(rng, length):
 
 def _encode(item, payload):
     flags = item['flags']
+    if item.get('admin') is not None:
+        flags |= bpv7.FLAG_ADMIN
+        payload = item['admin']
     pri = dict(version=7, flags=flags, crc_type=item['crc'], dest=item['dest'], src=item['src'], report_to=item['report_to'],
                create_time=item['time'], seqno=item['seq'], lifetime=3600000, frag_offset=None, total_adu_len=None, crc=None)
     if item['frag'] is not None:
@@ -185,7 +194,7 @@ def run_history(table, hist, obs, node_id=None, via_file=False):
             except bpv7.DecodeError:
                 forwards.append(('undecodable',))
                 continue
-            if dec['primary']['flags'] & bpv7.FLAG_ADMIN:
+            if dec['primary']['flags'] & bpv7.FLAG_ADMIN and bpv7.ident(dec) != _ident(item):
                 reports.append(dec)
             else:
                 forwards.append(bpv7.ident(dec))
@@ -204,7 +213,7 @@ def run_history(table, hist, obs, node_id=None, via_file=False):
                 problems.append('an incomplete fragment was delivered')
         elif got_deliver != want_deliver:
             problems.append('%d deliveries, model says %d' % (got_deliver, want_deliver))
-        if want_deliver and deliveries and deliveries[0]['payload'] != payload:
+        if want_deliver and deliveries and deliveries[0]['payload'] != (item['admin'] if item.get('admin') is not None else payload):
             problems.append('delivered payload differs')
         want_fwd = [_ident(item)] if decision == 'forward' else []
         if forwards != want_fwd:
@@ -269,13 +278,14 @@ def run_burst(table, hist, obs):
     obs['bursts'] = obs.get('bursts', 0) + 1
     got_deliver = [tuple(rec['ident']) for rec in node.observed if 'deliver' in rec['actions'] and not rec['is_fragment']]
     got_fwd = []
+    fed_idents = set(_ident(item) for item in hist)     # (an administrative bundle with one of these identities is in transit, no report)
     for (_no, _raw, data) in node.cl.sent:
         try:
             dec, _problems = bpv7.decode(data)
         except bpv7.DecodeError:
             got_fwd.append(('undecodable',))
             continue
-        if not dec['primary']['flags'] & bpv7.FLAG_ADMIN:
+        if not dec['primary']['flags'] & bpv7.FLAG_ADMIN or bpv7.ident(dec) in fed_idents:
             got_fwd.append(bpv7.ident(dec))
     if sim.world.callback_errors:
         problems.append('loop callback raised %s' % sim.world.callback_errors[0].exc_type)
@@ -340,6 +350,10 @@ def run_case(case):
         viols, _kinds = run_history(table, hist, obs, node_id=ipn_node, via_file=True)
         violations += viols
         obs['from_file_histories'] = obs.get('from_file_histories', 0) + 1
+        # the same from a file that also holds unusable entries between the good ones
+        viols, _kinds = run_history(table, hist, obs, node_id=ipn_node, via_file='noisy')
+        violations += [dict(viol, what='[configuration file with invalid entries between the routes] ' + viol['what']) for viol in viols]
+        obs['from_file_histories'] += 1
     if case.get('long'):
         table = _gen_table(rng)
         hist = _long_history(rng)
